@@ -70,10 +70,10 @@ Proof. vm_compute. repeat split. Qed.
 
 (* ---- remove_if_equals: does NOT follow symrefs; compares the raw content ---- *)
 
-(* what holds without any guard (in particular: failure leaves everything unchanged,
-   success only if the raw value matched); the packed entry is removed only when the
-   cache is loaded at that moment *)
-Theorem C37_remove_if_equals_cas_partial :
+(* compares the raw content (ZERO_SHA for absent); match => True, the loose file and the
+   packed entry are both gone (whether or not packed-refs had been loaded before: 80b730a),
+   nothing else changes; mismatch => False and the store is identical *)
+Theorem C37_remove_if_equals_cas :
   forall valid st pc n old,
     valid n = true -> coherent pc st ->
     let st' := fst (exec valid (OpRemove n old) st pc) in
@@ -82,38 +82,12 @@ Theorem C37_remove_if_equals_cas_partial :
     ((old = None \/ old = Some (cur (view st) n)) ->
        res_of t' = Some (RRet true) /\
        loose st' = upd (loose st) n None /\
-       (forall x, packed st' x =
-                  if remove_warm pc st n old then upd (packed st) n None x else packed st x)) /\
-    (forall o, old = Some o -> o <> cur (view st) n ->
-       res_of t' = Some (RRet false) /\ st' = st).
-Proof. exact remove_if_equals_cas_partial. Qed.
-Print Assumptions C37_remove_if_equals_cas_partial.
-
-(* the full statement ("success => the ref is gone") is FALSE: packed ref, cold cache *)
-Theorem C37_remove_if_equals_refuted :
-  exists st pc n old,
-    coherent pc st /\ cas_ok old (cur (view st) n) = true /\
-    res_of (snd (exec all_valid (OpRemove n old) st pc)) = Some (RRet true) /\
-    view (fst (exec all_valid (OpRemove n old) st pc)) n <> None.
-Proof. exact remove_cold_cache_refuted. Qed.
-Print Assumptions C37_remove_if_equals_refuted.
-
-(* ... and holds exactly under the executable guard [remove_guard]:
-   the cache is loaded when _remove_packed_ref runs, or the ref is not packed *)
-Theorem C37_remove_if_equals_cas_guarded :
-  forall valid st pc n old,
-    valid n = true -> coherent pc st ->
-    remove_guard pc st (OpRemove n old) = true ->
-    let st' := fst (exec valid (OpRemove n old) st pc) in
-    let t' := snd (exec valid (OpRemove n old) st pc) in
-    coherent (tc t') st' /\
-    ((old = None \/ old = Some (cur (view st) n)) ->
-       res_of t' = Some (RRet true) /\
+       (forall x, packed st' x = upd (packed st) n None x) /\
        (forall x, view st' x = if N.eqb x n then None else view st x)) /\
     (forall o, old = Some o -> o <> cur (view st) n ->
        res_of t' = Some (RRet false) /\ st' = st).
-Proof. exact remove_if_equals_cas_guarded. Qed.
-Print Assumptions C37_remove_if_equals_cas_guarded.
+Proof. exact remove_if_equals_cas. Qed.
+Print Assumptions C37_remove_if_equals_cas.
 
 (* removing the symbolic HEAD: the expected value is its raw content "ref: refs/heads/a",
    the SHA it resolves to is refused; the target is never touched *)
@@ -121,8 +95,8 @@ Example C37_remove_example :
   let r := exec all_valid (OpRemove 0%N (Some (VSym 1%N))) ex_store (Some (packed ex_store)) in
   res_of (snd r) = Some (RRet true) /\ view (fst r) 0%N = None /\ view (fst r) 1%N = Some (VSha 1%N) /\
   res_of (snd (exec all_valid (OpRemove 0%N (Some (VSha 1%N))) ex_store None)) = Some (RRet false) /\
-  remove_guard (Some (packed ex_store)) ex_store (OpRemove 1%N None) = true /\
-  remove_guard None ex_store (OpRemove 1%N None) = false.
+  (* loose 1 + packed 2, cold cache, expected 1: both copies go *)
+  view (fst (exec all_valid (OpRemove 1%N (Some (VSha 1%N))) ex_store None)) 1%N = None.
 Proof. vm_compute. repeat split. Qed.
 
 (* ---- add_if_new ---- *)
@@ -162,7 +136,7 @@ Print Assumptions C37_sequence_invariant.
 (* every operation refines the ATOMIC compare-and-swap specification on the view *)
 Theorem C37_refines_atomic_spec :
   forall valid o st pc,
-    coherent pc st -> remove_guard pc st o = true ->
+    coherent pc st ->
     res_of (snd (exec valid o st pc)) = Some (fst (spec_op valid o (view st))) /\
     forall x, view (fst (exec valid o st pc)) x = snd (spec_op valid o (view st)) x.
 Proof. exact exec_refines_spec. Qed.
@@ -213,12 +187,11 @@ Proof. exact remove_resurrects_refuted. Qed.
 Print Assumptions C37_remove_resurrects_refuted.
 
 (* guarded: updaters that do not overlap and whose caches are coherent when they start
-   (and loaded when a packed ref is to be removed) ARE linearizable *)
+   ARE linearizable *)
 Theorem C37_two_updaters_serial_guarded :
   forall valid st oa ca ob cb,
-    coherent ca st -> remove_guard ca st oa = true ->
+    coherent ca st ->
     coherent cb (fst (exec valid oa st ca)) ->
-    remove_guard cb (fst (exec valid oa st ca)) ob = true ->
     linearizable valid oa ob st
       (run_sched valid [0; 0; 0; 1; 1; 1] (sys_init st oa ca ob cb)).
 Proof. exact serial_linearizable. Qed.
@@ -231,5 +204,5 @@ Example C37_serial_example :
        (sys_init (mk_store [(1%N, VSha 1%N)] []) (OpSet 1%N (Some (VSha 1%N)) 2%N) None
                  (OpSet 1%N (Some (VSha 1%N)) 3%N) None)).
 Proof.
-  apply C37_two_updaters_serial_guarded; try reflexivity; apply coherent_none.
+  apply C37_two_updaters_serial_guarded; apply coherent_none.
 Qed.
